@@ -1320,7 +1320,12 @@ fn process_fn(
         closure_loops_used = cp.loops_used.clone();
         closure_ins_counts = std::mem::take(&mut cp.ins_counts);
         for k in cspecs.keys() {
-            if !used.contains(k) { errors.push(format!("{}: lost anchor: closure {} not found ({} closures in source)", path, k, tag.closures)); }
+            if !used.contains(k) {
+                // a function that no longer has ANY closure cannot need a closure annotation: the annotations are
+                // dropped (recorded) and the body is verified as it stands
+                if tag.closures == 0 { rules.hit("VANISHED.closure_annotation_dropped"); }
+                else { errors.push(format!("{}: lost anchor: closure {} not found ({} closures in source)", path, k, tag.closures)); }
+            }
         }
     }
     {
@@ -1364,7 +1369,7 @@ fn process_fn(
         if exp != tag.loops { errors.push(format!("{}: lost anchor: expected {} loops, source has {}", path, exp, tag.loops)); }
     }
     if let Some(exp) = spec.get("expect_closures").and_then(|x| x.as_u64()) {
-        if exp != tag.closures { errors.push(format!("{}: lost anchor: expected {} closures, source has {}", path, exp, tag.closures)); }
+        if exp != tag.closures && tag.closures != 0 { errors.push(format!("{}: lost anchor: expected {} closures, source has {}", path, exp, tag.closures)); }
     }
 
     // R12 (functions): a pattern parameter `PAT: T` becomes `__vx_argN: T` + `let PAT = __vx_argN;`
